@@ -594,4 +594,43 @@ def lcCheckStateGraph (t1 : STab) (g2 : BMat) (validate : Bool) : Except Err (Bo
         | .ok false => .error .warning
       else .ok (true, total)
 
+/-! ## `converter_gate_list` / `lc_check` on graphs with `_phase_correction` and the validation modelled function by function
+
+  `converterGateList(R)` above computes the phase correction at specification level (`phaseCorrection`: the `Z` gates on the qubits
+  whose generator carries the sign `−`) and `lcCheck(R)` validates through `isGraphState`.  The functions below mirror the Python
+  literally: `_phase_correction(tab1, tab2, gate_list)` is the C08 model `S2G.phaseCorrection` (canonical forms, `run_circuit`,
+  exact inverse of the X part, `z_ops = x_inv @ phase_diff`), the validation is the comparison of canonical forms
+  (`S2G.sameStabilizerState`).  `Proofs/LCPhase.lean` proves that they return the same results. -/
+
+/-- a `Gate` back as a `(name, qubit)` pair of a gate list -/
+def fromGate : Gate → String × Nat
+  | .H q => ("H", q) | .P q => ("P", q) | .Pdag q => ("P_dag", q) | .X q => ("X", q) | .Y q => ("Y", q) | .Z q => ("Z", q)
+  | .I q => ("I", q) | .CNOT c _ => ("CNOT", c) | .CZ c _ => ("CZ", c)
+
+/-- `converter_gate_list(g1, g2)`, function by function -/
+def converterGateListF (a b : BMat) : Except Err (List (String × Nat)) :=
+  match isLcEquivalentR a b .det [] with
+  | .error e => .error e
+  | .ok out =>
+    match out.sol with
+    | none => .error .assertion
+    | some s =>
+      let names := localCliffordOps a.r s
+      let gates : List (String × Nat) := (names.zipIdx).flatMap fun (ops, i) => ops.reverse.map fun o => (o, i)
+      match S2G.phaseCorrection (graphSTab a.r a.f) (graphSTab b.r b.f) (gates.map toGate) with
+      | .error e => .error e
+      | .ok zs => .ok (gates ++ zs.map fromGate)
+
+/-- `lc_check(g1, g2, validate)` for two graphs / adjacency matrices, function by function -/
+def lcCheckF (a b : BMat) (validate : Bool) : Except Err (Bool × List (String × Nat)) :=
+  match converterGateListF a b with
+  | .error _ => .ok (false, [])
+  | .ok gates =>
+    if validate then
+      match S2G.sameStabilizerState ((graphSTab a.r a.f).runCircuit (gates.map toGate)) (graphSTab b.r b.f) with
+      | .error e => .error e
+      | .ok true => .ok (true, gates)
+      | .ok false => .error .warning
+    else .ok (true, gates)
+
 end Graphiq.LC
